@@ -201,7 +201,11 @@ func HarnessC16Exec() {
 	pad := []string{"", "\n", "  \n\t", "\r\n  x ", "é\n"}[verifChoice(5)] + symStringLen(0, 1)
 	verifAssume(noDelims(pad + "{"))
 	bad := []string{"{{ 10 / zero }}", "{{ nofunc(1) }}", "{% lorem 100001 %}", "{{ \"x\"|date:\"x\" }}", "{% widthratio 1 zero 1 %}{{ fail() }}"}[verifChoice(5)]
-	place := verifChoice(4)
+	place := verifChoice(5)
+	if verifKnown("C16-missing-file-position") {
+		// open finding: a missing file is reported under ITS name with the position of the tag that names it
+		verifAssume(place != 4)
+	}
 	verifObserve("pad", pad)
 	verifObserve("bad", bad)
 	verifObserve("place", place)
@@ -217,11 +221,27 @@ func HarnessC16Exec() {
 		files["main"] = "{% extends \"base\" %}\n" + pad + "{% block k %}" + pad + bad + "{% endblock %}"
 	case 2:
 		files["main"] = "m1\n\n   {% include \"inc\" %}"
-	default:
+	case 3:
 		files["main"] = "m1\n{% import \"lib\" m %}\n\n  {{ m() }}"
+	default: // a file that does not exist, named by an include tag: a compile error
+		files["main"] = "m1\n" + pad + "{% include \"nope\" %}"
 	}
 	set := NewSet("verif", &memLoader{files: files})
 	tpl, err := set.FromFile("main")
+	if place == 4 {
+		verifAssert(err != nil, "a missing file must be a compile error")
+		e, ok := err.(*Error)
+		verifAssert(ok, "compile error must be a *pongo2.Error")
+		verifObserve("file", e.Filename)
+		verifObserve("line", e.Line)
+		if e.Line > 0 {
+			src, named := files[e.Filename]
+			verifAssert(named, "an error that carries a position must name the source the position lies in (a missing file has no lines)")
+			off := c16Offset(src, e.Line, e.Column)
+			verifAssert(off >= 0 && off <= len(src), "error position lies outside the source of the template it names")
+		}
+		return
+	}
 	verifAssert(err == nil, "the construct fails at execution only")
 	_, err2 := tpl.Execute(Context{"zero": 0, "nofunc": 5, "fail": func() (string, error) { return "", errHarness }})
 	verifAssert(err2 != nil, "the construct must fail")
